@@ -45,9 +45,59 @@ def harness_min_ann(tier, seed):
                     viol.append((f"{ctrl.name}_{sd}d/inputs-modified", info, "state or params changed"))
                 if len(samples) < 2:
                     samples.append({**info, "out": float(out[0])})
+    # ---- the three pre-defined laws (predefined.py), including their guarded divisions: a divisor of exactly zero is
+    # replaced by the argument 1.0 of the surrounding function - the factor in front stays
+    import math
+    from moptipyapps.dynamic_control.controllers.predefined import predefined
+
+    def th(v):
+        return math.tanh(v)
+
+    def ref_law(name, s_, p_):
+        if name == "cornejo_maceda":
+            z = th(s_[0] - s_[1])
+            for b in p_[:3]:
+                z = th(1.0 if b == 0 else z / b)
+            return z
+        if name == "table_3_1_ga":
+            return s_[0] * p_[0] + s_[1] * p_[1]
+        if name == "table_3_1_lgpc":
+            a = s_[0] * p_[0] + p_[1]
+            return p_[2] * math.sin((p_[3] / a) if a != 0.0 else 1.0)
+        return None
+    for sd in (2, 3):
+        for ctrl in predefined(S(sd)):
+            pd = ctrl.param_dims
+            for r in range(60 if tier == "quick" else 2000):
+                params = np.array([rng.uniform(-3, 3) for _ in range(pd)])
+                state = np.array([rng.uniform(-5, 5) for _ in range(sd)])
+                mode = r % 6
+                if mode == 0:
+                    params[:] = 0.0
+                elif mode == 1:
+                    params[rng.randrange(pd)] = 0.0
+                elif mode == 2 and pd >= 2:           # exactly cancelling: s0 * p0 + p1 == 0 with small integers
+                    state[0], params[0], params[1] = 2.0, 3.0, -6.0
+                elif mode == 3:
+                    state[:] = 0.0
+                    if pd >= 2:
+                        params[1] = 0.0
+                want = ref_law(ctrl.name, state.tolist(), params.tolist())
+                if want is None:
+                    continue
+                s0, p0 = state.copy(), params.copy()
+                out = np.full(1, np.nan)
+                ctrl.controller(state, 0.0, params, out)
+                evals += 1
+                info = {"controller": ctrl.name, "state": s0.tolist(), "params": p0.tolist()}
+                if not (out[0] == want or abs(out[0] - want) <= 1e-9 * max(1.0, abs(want))):
+                    viol.append((f"predefined/{ctrl.name}/documented-law", info, f"out={float(out[0])}, law gives {want}"))
+                if not (np.array_equal(state, s0) and np.array_equal(params, p0)):
+                    viol.append((f"predefined/{ctrl.name}/inputs-modified", info, "state or params changed"))
     seen = set()
     viol = [v for v in viol if not (v[0] in seen or seen.add(v[0]))]
     return {"name": "min_ann", "evaluations": evals, "distinct_nontrivial": len(distinct),
             "rule": "6 min_ann controllers x (zero / constant / random parameter vectors, random states): finite, within "
-                    "[-1000, 1000], repeatable, inputs unmodified; distinct = distinct (controller, params, state)",
+                    "[-1000, 1000], repeatable, inputs unmodified; the three pre-defined laws against their formulas incl. zero "
+                    "and exactly cancelling divisors; distinct = distinct (controller, params, state)",
             "samples": samples, "violations": viol, "exhaustive": False}
